@@ -85,6 +85,8 @@ pub struct BasicOpts {
     pub keepalive_rate: u32,
     /// idle timeouts to draw from when `idle_off` is false (per side)
     pub idle_choices: Vec<Option<u64>>,
+    /// ServerConfig::{max_incoming, incoming_buffer_size, incoming_buffer_size_total}
+    pub incoming_limits: Option<(usize, u64, u64)>,
     /// clients pad every 1-RTT datagram to the MTU (room for the tap to overwrite plaintext)
     pub force_client_pad: bool,
     /// the fault phase begins this late (the network is clean before)
@@ -142,6 +144,7 @@ impl Default for BasicOpts {
             directed_max: 2,
             keepalive_rate: 0,
             idle_choices: vec![Some(30_000)],
+            incoming_limits: None,
             force_client_pad: false,
             fault_start: 0,
             server_tls: None,
@@ -239,6 +242,9 @@ impl Basic {
         let crypto_s = if opts.use_tap { cfgs::tapped_server_crypto(&w.tap, 0, tls_s) } else { cfgs::untapped_server_crypto(tls_s) };
         let mut scfg = cfgs::server_config(crypto_s, 0x70, st, clock.clone());
         scfg.migration(opts.server_migration);
+        if let Some((n, per, total)) = opts.incoming_limits {
+            scfg.max_incoming(n).incoming_buffer_size(per).incoming_buffer_size_total(total);
+        }
         let server_ep = Endpoint::new(Arc::new(cfgs::endpoint_config(&sep)), Some(Arc::new(scfg)), true);
         let server_addr = cfgs::addr(0, 0);
         let server = w.add_node(server_ep, server_addr, cid_len, gso_s);
